@@ -187,6 +187,7 @@ func newRun(conf sconf) (*srun, string) {
 	}
 	ru.g.mu.Lock()
 	ru.g.on = true
+	ru.g.perWrite = !conf.coal // the direct writer arms the deadline for every Write, the coalescer once per flush
 	ru.g.mu.Unlock()
 	return ru, ""
 }
@@ -729,6 +730,14 @@ func genPlan(r *vh.Rng, conf *sconf) plan {
 }
 
 func (ru *srun) target(w *gwrite, p plan) int {
+	t := ru.target0(w, p)
+	if t > len(w.p) { // a Write shorter than a frame header (not a behaviour of the unchanged writers)
+		t = len(w.p)
+	}
+	return t
+}
+
+func (ru *srun) target0(w *gwrite, p plan) int {
 	if w.idx != p.cutWrite {
 		return len(w.p)
 	}
@@ -1004,6 +1013,9 @@ func runTemplate(conf sconf, cutFrame, cutOff int, kind string) (sop, ans, top, 
 	for f := 1; f <= 3 && ru.fatal == ""; f++ {
 		w := ru.heldOf(f)
 		if w == nil {
+			if len(ru.g.heldSnapshot()) > 0 { // something else is inside the transport (a Write that is not whole frames):
+				break // let it through; the monitor judges the byte stream
+			}
 			ru.fatal = fmt.Sprintf("fatal template: frame %d is not inside the transport after: %s", f, strings.Join(ru.events, " "))
 			break
 		}
@@ -1065,6 +1077,15 @@ func runSizeTemplate(conf sconf, totals []int, holdOff int, kind string) (sop, a
 		ru.exec("t") // refused when request 1 did not go through the queue
 	}
 	w := ru.heldOf(1)
+	if w == nil && len(ru.g.heldSnapshot()) > 0 { // a Write that is not whole frames: let it through, the monitor judges
+		ru.drain()
+		ru.exec("s2")
+		ru.drain()
+		if ru.fatal != "" {
+			return ru.fatal, "", "", "fatal"
+		}
+		return ru.schedLine(), ru.answer(), ru.traceLine(), "size/unframed-write"
+	}
 	if w == nil {
 		return fmt.Sprintf("fatal size template: frame 1 is not inside the transport after: %s (%s)", strings.Join(ru.events, " "), conf.header()), "", "", "fatal"
 	}
